@@ -79,6 +79,8 @@ Next ==
     /\ \/ ph = 0 /\ ph' = 1 /\ set' \in {<<e>> : e \in Elems(Alpha(mode, uids))}
        \/ ph = 1 /\ ph' = 2 /\ set' \in WithFirst(set[1], Groups[g])
 Spec == Init /\ [][Next]_<<g, set, ph>>
+(* evaluates the ASSUMEs (emission, non-vacuity) and nothing else *)
+SpecEmit == (g = 1 /\ set = <<>> /\ ph = 3) /\ [][Next]_<<g, set, ph>>
 Case == ph = 2
 
 SwapElem(e) == IF Len(e) = 2 THEN <<e[2], e[1]>> ELSE e
